@@ -4,6 +4,8 @@ import WM.Lemmas.NormalizeEstimate
 import WM.Lemmas.NormalizeIdem5
 import WM.Lemmas.NormalizeWitness
 import WM.Lemmas.NormalizeExc
+import WM.Lemmas.NormalizeDedupe
+import WM.Lemmas.NormalizeNested
 /-!
 C15 — query rewriting never changes what a query means.
 
@@ -363,6 +365,65 @@ example :
       ∧ ((Q.not t 1) == (Q.not t 2)) = false ∧ (t == Q.term 0 [97] 1) = true := by
   refine ⟨by decide +kernel, by decide +kernel, by decide +kernel⟩
 
+/-! ### The duplicate elimination for an arbitrary clause class and equality
+
+`NestedParent`/`NestedChildren` (and any class outside the model) go through the same "Eliminate
+duplicate queries" loop with their own `__eq__`/`__hash__`.  `m c d` is any reading "clause `c`
+matches document `d`". -/
+
+/-- The duplicate elimination keeps the meaning of the clause list under `Or` (some clause matches) and
+    under `And` (every clause matches) for every clause class whose equality is sound for the document:
+    clauses that compare equal match it alike. -/
+theorem dedupe_by_sound {α : Type} (eqv : α → α → Bool) (m : α → Doc → Bool) (d : Doc)
+    (h : ∀ a b, eqv a b = true → m a d = m b d) (l : List α) :
+    (WM.NormalizeDedupe.dedupeBy eqv [] l).any (fun c => m c d) = l.any (fun c => m c d)
+      ∧ (WM.NormalizeDedupe.dedupeBy eqv [] l).all (fun c => m c d) = l.all (fun c => m c d) := by
+  have h1 := WM.NormalizeDedupe.dedupeBy_any eqv (fun c => m c d) h l []
+  have h2 := WM.NormalizeDedupe.dedupeBy_all eqv (fun c => m c d) h l []
+  simpa using And.intro h1 h2
+
+/-- In particular an equality that only identifies a clause with itself (object identity, what
+    `WrappingQuery` subclasses without `__eq__` have; structural equality of all attributes) is sound
+    for every reading. -/
+theorem dedupe_by_sound_of_eq {α : Type} (eqv : α → α → Bool) (heq : ∀ a b, eqv a b = true → a = b)
+    (m : α → Doc → Bool) (d : Doc) (l : List α) :
+    (WM.NormalizeDedupe.dedupeBy eqv [] l).any (fun c => m c d) = l.any (fun c => m c d)
+      ∧ (WM.NormalizeDedupe.dedupeBy eqv [] l).all (fun c => m c d) = l.all (fun c => m c d) :=
+  dedupe_by_sound eqv m d (fun a b e => by rw [heq a b e]) l
+
+/-- The hypothesis is necessary: an equality that identifies two clauses of which only the second
+    matches `d` makes `Or([a, b]).normalize()` lose `d`, and one that identifies two clauses of which
+    only the first matches makes `And([a, b]).normalize()` gain it. -/
+theorem dedupe_by_unsound {α : Type} (eqv : α → α → Bool) (m : α → Doc → Bool) (d : Doc) (a b : α)
+    (e : eqv b a = true) :
+    (m a d = false → m b d = true →
+        (WM.NormalizeDedupe.dedupeBy eqv [] [a, b]).any (fun c => m c d) = false
+          ∧ [a, b].any (fun c => m c d) = true)
+      ∧ (m a d = true → m b d = false →
+        (WM.NormalizeDedupe.dedupeBy eqv [] [a, b]).all (fun c => m c d) = true
+          ∧ [a, b].all (fun c => m c d) = false) := by
+  constructor <;> intro ha hb <;>
+    simp [WM.NormalizeDedupe.dedupeBy, WM.NormalizeDedupe.seenBy, e, ha, hb]
+
+/-- The loop of the modelled classes (`WM.Normalize.dedupe` with no `Every` field recorded) is the
+    generic loop with structural equality `Q.beq`. -/
+theorem dedupe_is_dedupe_by (l : List Q) :
+    dedupe [] [] l = WM.NormalizeDedupe.dedupeBy (fun a b => a == b) [] l :=
+  WM.NormalizeDedupe.dedupe_eq_dedupeBy l []
+
+/-- Clauses numbered 0..3 with "same wrapped query" as equality (0 ~ 1, 2 ~ 3) and the reading
+    "matches document `d` iff the clause number is odd": the loop keeps 0 and 2, the `Or` loses the
+    document; with identity as equality nothing is dropped. -/
+example :
+    let eqv : Nat → Nat → Bool := fun i j => i / 2 == j / 2
+    let m : Nat → Doc → Bool := fun i _ => i % 2 == 1
+    WM.NormalizeDedupe.dedupeBy eqv [] [0, 1, 2, 3] = [0, 2]
+      ∧ (WM.NormalizeDedupe.dedupeBy eqv [] [0, 1, 2, 3]).any (fun c => m c (doc 0 [])) = false
+      ∧ [0, 1, 2, 3].any (fun c => m c (doc 0 [])) = true
+      ∧ WM.NormalizeDedupe.dedupeBy (fun i j : Nat => i == j) [] [0, 1, 0, 3, 1] = [0, 1, 3]
+      ∧ WM.NormalizeDedupe.dedupeBy (WM.NormalizeDedupe.tableEqv [(1, 0), (3, 2)]) [] [0, 1, 2, 3] = [0, 2] := by
+  refine ⟨by decide, by decide, by decide, by decide, by decide⟩
+
 /-! ### `simplify(ixreader)` and `estimate_size(ixreader)` -/
 
 /-- `simplify(reader)` means the same as the query on the index the reader describes (when none of
@@ -438,5 +499,85 @@ example :
       ∧ (Q.seq false [.comp .and [] 1, .phrase 0 [] 1 1] 1 true 1).spanFree = true := by
   refine ⟨rfl, by decide +kernel, by decide +kernel, by decide +kernel, by decide +kernel, by decide +kernel,
     by decide +kernel, by decide +kernel, by decide +kernel⟩
+
+/-! ### `NestedParent` / `NestedChildren` as structured nodes -/
+
+open WM.NormalizeNested in
+/-- `NestedParent.normalize()` returns the same parent documents on every segmented index, when
+    neither sub-query runs into a recorded defect of `normalize()` (the hypotheses of
+    `normalize_sat_partial` for `parents` and for the wrapped query); `NullQuery` as the result means
+    the query matched nothing. -/
+theorem nested_parent_normalize_answer_partial (env : Env) (segs : List (List Doc)) (n : NParent)
+    (hp : clean n.parents = true) (hc : clean n.child = true) (hep : EOk env n.parents)
+    (hec : EOk env n.child) (hidx : ∀ d ∈ env.index, d.BelowMax)
+    (hsegs : ∀ seg ∈ segs, ∀ d ∈ seg, d ∈ env.index) :
+    parentAnswerOpt env segs n.normalize = parentAnswer env segs n := by
+  have sp : ∀ seg ∈ segs, ∀ d ∈ seg, sat env (normalize n.parents) d = sat env n.parents d :=
+    fun seg hs d hd => normalize_sat_partial env n.parents hp hep hidx d (hsegs seg hs d hd)
+  have sc : ∀ seg ∈ segs, ∀ d ∈ seg, sat env (normalize n.child) d = sat env n.child d :=
+    fun seg hs d hd => normalize_sat_partial env n.child hc hec hidx d (hsegs seg hs d hd)
+  unfold NParent.normalize
+  by_cases h1 : (normalize n.parents).isNull = true
+  · simp only [h1, Bool.true_or, if_true, parentAnswerOpt]
+    symm
+    apply parentAnswer_no_parents
+    intro seg hs d hd
+    rw [← sp seg hs d hd, isNull_eq h1]
+    simp [sat]
+  · by_cases h2 : (normalize n.child).isNull = true
+    · simp only [h2, Bool.or_true, if_true, parentAnswerOpt]
+      symm
+      apply parentAnswer_no_children
+      intro seg hs d hd
+      rw [← sc seg hs d hd, isNull_eq h2]
+      simp [sat]
+    · simp only [h1, h2, Bool.or_self, Bool.false_eq_true, if_false, parentAnswerOpt]
+      exact parentAnswer_congr env segs n _ sp sc
+
+open WM.NormalizeNested in
+/-- `NestedParent.normalize()` is idempotent and keeps `per_parent_limit` and `score_fn`. -/
+theorem nested_parent_normalize_idempotent (n : NParent) :
+    n.normalize.bind NParent.normalize = n.normalize
+      ∧ ∀ m, n.normalize = some m → m.limit = n.limit ∧ m.fn = n.fn := by
+  unfold NParent.normalize
+  by_cases h : ((normalize n.parents).isNull || (normalize n.child).isNull) = true
+  · simp [h]
+  · simp only [h, Bool.false_eq_true, if_false, Option.bind_some, idempotent]
+    constructor
+    · first | rfl | trivial
+    · intro m hm
+      cases hm
+      exact ⟨rfl, rfl⟩
+
+open WM.NormalizeNested in
+/-- `with_boost()` of a `NestedParent` (the boost goes to the wrapped query) and `normalize()` of a
+    `NestedChildren` (inherited from `Query`: the query itself) return the same documents, for every
+    tree. -/
+theorem nested_boost_answer (env : Env) (segs : List (List Doc)) (n : NParent) (b : Rat) (c : NChildren) :
+    parentAnswer env segs (n.withBoost b) = parentAnswer env segs n ∧ c.normalize = c :=
+  ⟨parentAnswer_congr env segs n _ (fun _ _ _ _ => rfl) (fun _ _ d _ => with_boost_sat env n.child b d), rfl⟩
+
+/-- Two segments `p a p | b a p b` (one token per document, field 0): the parents of the documents
+    with `a` are 0 and 2 in the first segment; in the second segment `b` comes before every parent, so
+    `NestedParent(p, a|b)` stops there (`comb.before` is `None`), `NestedParent(p, a)` still finds nothing
+    above 4 because 4 has no parent before it either, and `NestedParent(p, b)` returns 5 (document 6).
+    `normalize()` rewrites the duplicate `Or` to its clause and turns an empty sub-query into `NullQuery`. -/
+example :
+    let s1 := [doc 0 [[112]], doc 1 [[97]], doc 2 [[112]]]
+    let s2 := [doc 3 [[98]], doc 4 [[97]], doc 5 [[112]], doc 6 [[98]]]
+    let env : Env := { env0 with index := s1 ++ s2 }
+    let p : Q := .term 0 [112] 1
+    let n : WM.NormalizeNested.NParent := ⟨p, .comp .or [.term 0 [97] 1, .term 0 [97] 1] 1, some 1, 0⟩
+    n.normalize.map (fun m => (m.parents, m.child, m.limit, m.fn)) = some (p, .term 0 [97] 1, some 1, 0)
+      ∧ WM.NormalizeNested.parentAnswer env [s1, s2] n = [0]
+      ∧ WM.NormalizeNested.parentAnswerOpt env [s1, s2] n.normalize = [0]
+      ∧ WM.NormalizeNested.parentAnswer env [s1 ++ s2] n = [0, 2]
+      ∧ WM.NormalizeNested.parentAnswer env [s1, s2] ⟨p, .term 0 [98] 1, none, 0⟩ = []
+      ∧ WM.NormalizeNested.parentAnswer env [s1 ++ s2] ⟨p, .term 0 [98] 1, none, 0⟩ = [2, 5]
+      ∧ WM.NormalizeNested.parentAnswer env [s1, s2] ⟨p, .comp .or [.term 0 [97] 1, .term 0 [112] 1] 1, none, 1⟩ = [0, 2]
+      ∧ (WM.NormalizeNested.NParent.normalize ⟨p, .comp .or [] 1, none, 0⟩).isNone = true
+      ∧ clean n.child = true ∧ clean p = true := by
+  refine ⟨by decide +kernel, by decide +kernel, by decide +kernel, by decide +kernel, by decide +kernel,
+    by decide +kernel, by decide +kernel, by decide +kernel, by decide +kernel, by decide +kernel⟩
 
 end WM.C15
